@@ -39,6 +39,10 @@ class Missing(metaclass=MissingType):
     ) -> bool:
         return value is MISSING
 
+    def __reduce__(self) -> str:
+        # copy, deepcopy and pickle resolve to the module level singleton instead of a new instance
+        return "MISSING"
+
     def __str__(self) -> str:
         return "MISSING"
 
